@@ -171,3 +171,125 @@ func globalRoot(v ssa.Value) *ssa.Global {
 	}
 	return nil
 }
+
+// D5 (C07/C09/C04): the msg service router gives every routed message a fresh event manager and returns the message's
+// events in the *sdk.Result. A caller that routes messages itself (deposit hook, ExecuteMessages) must therefore emit the
+// events of every result, otherwise what the routed handler announced - e.g. a token withdrawal, whose only record is its
+// event - never reaches the transaction. Decided by def-use over go/ssa: the first result of every call through a value of
+// type baseapp.MsgServiceHandler must flow into Result.GetEvents whose value is used.
+func runEventForwarding(s *Session, prop string) *DisciplineResult {
+	res := &DisciplineResult{}
+	all := ssautil.AllFunctions(s.L.Prog)
+	var fns []*ssa.Function
+	for fn := range all {
+		if fn.Blocks == nil || !repoFn(fn) || generated(s.L, fn) {
+			continue
+		}
+		fns = append(fns, fn)
+	}
+	sort.Slice(fns, func(i, j int) bool { return fns[i].String() < fns[j].String() })
+	ord := map[*ssa.Function]int{}
+	for _, fn := range fns {
+		for _, b := range fn.Blocks {
+			for _, in := range b.Instrs {
+				call, ok := in.(*ssa.Call)
+				if !ok || call.Call.IsInvoke() || call.Call.StaticCallee() != nil {
+					continue
+				}
+				if !isMsgHandlerType(call.Call.Value.Type()) {
+					continue
+				}
+				res.Functions++
+				short := strings.TrimPrefix(fn.String(), repoPrefix+"/")
+				pos := s.L.Fset.Position(call.Pos())
+				okFwd := false
+				if refs := call.Referrers(); refs != nil {
+					for _, r := range *refs {
+						if ex, isEx := r.(*ssa.Extract); isEx && ex.Index == 0 && eventsRead(ex, 0) {
+							okFwd = true
+						}
+					}
+				}
+				ord[fn]++
+				o := &Obligation{Name: fmt.Sprintf("%s.%s.D5.routed_message_events_forwarded#%d", prop, short, ord[fn]), Func: fn.String(), Kind: "discipline",
+					Clause: "the events of every message routed by " + short + " are read from its Result (GetEvents) and used", Goal: "true", Result: "unsat", Solver: "ssa-scan"}
+				if !okFwd {
+					o.Result, o.Goal = "sat", "false"
+					o.Model = "the *sdk.Result of the routed handler at " + pos.String() + " is discarded: its events never reach the transaction"
+				}
+				res.Obls = append(res.Obls, o)
+			}
+		}
+	}
+	return res
+}
+
+func filepathBase(p string) string {
+	if i := strings.LastIndex(p, "/"); i >= 0 {
+		return p[i+1:]
+	}
+	return p
+}
+
+// isMsgHandlerType: func(sdk.Context, sdk.Msg) (*sdk.Result, error), however it is named.
+func isMsgHandlerType(t types.Type) bool {
+	sig, ok := t.Underlying().(*types.Signature)
+	if !ok || sig.Params().Len() != 2 || sig.Results().Len() != 2 {
+		return false
+	}
+	r0 := types.TypeString(sig.Results().At(0).Type(), nil)
+	p0 := types.TypeString(sig.Params().At(0).Type(), nil)
+	return strings.HasSuffix(r0, "cosmos-sdk/types.Result") && strings.HasSuffix(p0, "cosmos-sdk/types.Context") && isErrorType(sig.Results().At(1).Type())
+}
+
+// eventsRead: the value (a *sdk.Result or something derived from it by loads, field accesses, phis) reaches a use of
+// its events (GetEvents call or the Events field) whose value is itself used.
+func eventsRead(v ssa.Value, depth int) bool {
+	refs := v.Referrers()
+	if refs == nil || depth > 5 {
+		return false
+	}
+	for _, u := range *refs {
+		switch x := u.(type) {
+		case *ssa.Call:
+			if f := x.Call.StaticCallee(); f != nil && f.Name() == "GetEvents" && x.Referrers() != nil && len(*x.Referrers()) > 0 {
+				return true
+			}
+		case *ssa.FieldAddr:
+			if x.Referrers() != nil && len(*x.Referrers()) > 0 && fieldName(x.X.Type(), x.Field) == "Events" {
+				return true
+			}
+			if eventsRead(x, depth+1) {
+				return true
+			}
+		case *ssa.Field:
+			if fieldName(x.X.Type(), x.Field) == "Events" && x.Referrers() != nil && len(*x.Referrers()) > 0 {
+				return true
+			}
+		case *ssa.UnOp:
+			if eventsRead(x, depth+1) {
+				return true
+			}
+		case *ssa.Phi:
+			if eventsRead(x, depth+1) {
+				return true
+			}
+		case *ssa.Store:
+			// stored into a local that is read later: follow the address
+			if a, ok := x.Addr.(ssa.Value); ok && x.Val == v && eventsRead(a, depth+1) {
+				return true
+			}
+		}
+	}
+	return false
+}
+
+func fieldName(t types.Type, i int) string {
+	if p, ok := t.Underlying().(*types.Pointer); ok {
+		t = p.Elem()
+	}
+	if st, ok := t.Underlying().(*types.Struct); ok && i < st.NumFields() {
+		return st.Field(i).Name()
+	}
+	return ""
+}
